@@ -591,6 +591,15 @@ def schedule {κ : Type} (env : Nat → List (Op κ)) : Nat → List κ → List
   | _, [] => []
   | k, t :: ts => env k ++ [.dsend t] ++ schedule env (k + 1) ts
 
+/-- The whole transmitter + receiver system as the world of the audit transmitter (the world's own `d`
+field is not used: the run loop carries the `ChannelTxDroppable` state itself). -/
+def sysTx {κ : Type} : Tx (Sys κ) κ :=
+  ⟨fun s x => let r := s.c.send x; ({ s with c := r.1 }, r.2), fun s => { s with c := s.c.dropTx }⟩
+
+/-- An audit consumer described by what it does (`recv` / `dropRx`) while the loop waits for its `k`-th
+`feed.next()`. -/
+def consumerEnv {κ : Type} (cons : Nat → List (Op κ)) : Nat → Sys κ → Sys κ := fun k s => s.run (cons k)
+
 /-- The audit channel together with what its consumer has read so far, as the world of the audit
 transmitter: `send` / `drop` act on the channel. -/
 def worldTx {κ : Type} : Tx (Chan κ × List κ) κ :=
